@@ -53,7 +53,11 @@ func genC14JSON(r *rand.Rand, pl *plan.Plan) {
 		}
 	}
 	for i, n := 0, 3+r.IntN(10); i < n; i++ {
-		pl.Ops = append(pl.Ops, plan.Op{K: "data", A: int64(r.IntN(nT)), B: int64(1 + r.IntN(4)), C: int64(r.Uint64() >> 1), D: int64(r.IntN(40))})
+		op := plan.Op{K: "data", A: int64(r.IntN(nT)), B: int64(1 + r.IntN(4)), C: int64(r.Uint64() >> 1), D: int64(r.IntN(40))}
+		if pl.Cfg["json_bad"] == 1 && r.IntN(4) == 0 {
+			op.F = []plan.Op{{K: "count", A: 1, B: r.Int64N(op.B)}}
+		}
+		pl.Ops = append(pl.Ops, op)
 		switch r.IntN(4) {
 		case 0:
 			pl.Ops = append(pl.Ops, plan.Op{K: "adv", A: int64(R)})
@@ -92,6 +96,7 @@ func runC14JSON(pl *plan.Plan, out *plan.Outcome) {
 	type docExp struct{ names []string }
 	var expect []docExp
 	var bytesReported int
+	partial := false // a refused set left documents behind (already reported): byte counts are moot
 	var closedAt time.Time
 	env.Go("app", func() {
 		if f := cfgOr(pl, "start_frac_ms", 0); f > 0 {
@@ -198,6 +203,12 @@ func runC14JSON(pl *plan.Plan, out *plan.Outcome) {
 					panic(err)
 				}
 				var names [][]string
+				badRec := -1 // a record of the set with one field too many (op.F: count fault)
+				for _, f := range op.F {
+					if f.K == "count" {
+						badRec = int(f.B) % int(op.B)
+					}
+				}
 				for rec := 0; rec < int(op.B); rec++ {
 					elems := make([]entities.InfoElementWithValue, len(specs))
 					var ns []string
@@ -209,6 +220,9 @@ func runC14JSON(pl *plan.Plan, out *plan.Outcome) {
 						elems[k] = mkElement(sp, ie, genWire(r, sp, int(op.D)))
 						ns = append(ns, sp.Name)
 					}
+					if rec == badRec {
+						elems = append(elems, elems[0])
+					}
 					if err := set.AddRecord(elems, ids[int(op.A)]); err != nil {
 						panic(err)
 					}
@@ -216,7 +230,35 @@ func runC14JSON(pl *plan.Plan, out *plan.Outcome) {
 				}
 				var n int
 				var serr error
+				env.mu.Lock()
+				before := len(wire)
+				env.mu.Unlock()
 				Block("send", func() { n, serr = ep.SendSet(set) })
+				if badRec >= 0 {
+					env.mu.Lock()
+					wrote := len(wire) - before
+					env.mu.Unlock()
+					env.Count("fault.invalid_attempt.json_record_with_wrong_field_count", 1)
+					if serr == nil {
+						env.Violate("invalid-accepted", "json:field-count", "op %d: record %d of %d has one field too many, SendSet of the JSON exporter returned success", i, badRec, op.B)
+					} else if wrote > 0 {
+						env.Violate("error-but-wrote", "json", "op %d: record %d of %d has one field too many and SendSet returned an error (%v), but %d documents had been written by then", i, badRec, op.B, serr, wrote)
+					}
+					if serr == nil {
+						// what was written is on the wire: keep the document count in step
+						for r2 := 0; r2 < int(op.B); r2++ {
+							expect = append(expect, docExp{names[r2]})
+						}
+						bytesReported += n
+					} else {
+						for r2 := 0; r2 < wrote; r2++ {
+							expect = append(expect, docExp{names[r2]})
+						}
+						bytesReported += n
+						partial = true
+					}
+					continue
+				}
 				if serr != nil {
 					env.Violate("valid-send-rejected", "json-data", "op %d: data set refused by a JSON exporter: %v", i, serr)
 					continue
@@ -306,7 +348,7 @@ func runC14JSON(pl *plan.Plan, out *plan.Outcome) {
 				}
 			}
 		}
-		if total != bytesReported {
+		if total != bytesReported && !partial {
 			env.Violate("byte-count", "json", "SendSet reported %d bytes in all, %d were written", bytesReported, total)
 		}
 	}
